@@ -37,6 +37,8 @@ HOSTILE = [
     b"^ea82f2d (A 0000-00-00 00:00:00 +0000 0)", b"src/a.rs:18446744073709551616:x", b"a.rs:1:", b":1:x", b"a.rs-1-", b"--",
     b"a" * 70000, b"-" + b"x" * 5000, b"+" + b"\t" * 3000, b" " + b"\xe4\xb8\x96" * 2000, b"", b" ", b"-", b"+", b"\\", b"\\ No newline",
     b"Only in a: x", b"Only in ", b"Only in", b"Only in a/b c: d e", b"diff -ru a b", b"diff -r -u a", b"diff -U3 a b", b"Submodule x contains untracked content",
+    # ESC followed by a multi-byte character: the byte-wise escape parser ends a sequence inside the character
+    b"\x1b\xc3\xa9\x0c\t4", b"-\x1b\xef\xbf\xbd\x0c\t4", b"+x\x1b[31\xc3\xa9m\x0cq", b" \x1b]8;;\xe4\xb8\x96\x0c", b"\x1b\xe4\xb8\x96\x1b\xc3\xa9\r",
     b"\r", b"-\r", b"+x\r\x1b[m", b"\x00", b"-\x00\x00", b"+\x7f\x08\x08", b" \x1b[2K\x1b[1A",
 ]
 
